@@ -109,12 +109,14 @@ class _Recorder:
         self.log.append((self.kind, args, dict(kwargs)))
         import mido.ports as MP
         if self.kind == 'get_devices':
-            return [dict(name='in1', is_input=True, is_output=False), dict(name='io1', is_input=True, is_output=True),
+            return [dict(name='Late', is_input=False, is_output=True),      # the output side of a port whose input side comes last
+                            dict(name='in1', is_input=True, is_output=False), dict(name='io1', is_input=True, is_output=True),
                     dict(name='out1', is_input=False, is_output=True), dict(name='io2', is_input=True, is_output=True),
                     dict(name='in1', is_input=True, is_output=False),
                     # one entry per direction, the outputs listed in another order than the inputs
                     dict(name='Synth', is_input=True, is_output=False), dict(name='Keys', is_input=True, is_output=False),
-                    dict(name='Keys', is_input=False, is_output=True), dict(name='Synth', is_input=False, is_output=True)]
+                    dict(name='Keys', is_input=False, is_output=True), dict(name='Synth', is_input=False, is_output=True),
+                            dict(name='Late', is_input=True, is_output=False)]
         p = MP.BaseIOPort(args[0] if args else None)
         p.kind = self.kind
         p.kw = dict(kwargs)
@@ -208,7 +210,7 @@ def backend_grid(tier, seed, only=None):
                     del log[:]
                     names = (b.get_input_names(**kw), b.get_output_names(**kw), b.get_ioport_names(**kw))
                     if devs:
-                        want_names = (['in1', 'io1', 'io2', 'in1', 'Synth', 'Keys'], ['io1', 'out1', 'io2', 'Keys', 'Synth'], ['io1', 'io2', 'Synth', 'Keys'])
+                        want_names = (['in1', 'io1', 'io2', 'in1', 'Synth', 'Keys', 'Late'], ['Late', 'io1', 'out1', 'io2', 'Keys', 'Synth'], ['io1', 'io2', 'Synth', 'Keys', 'Late'])
                         if names != want_names or any(c[2].get('api') != want_api for c in log if c[0] == 'get_devices') or len(log) != 3:
                             problems.append('name listings %r (device queries %r)' % (names, log))
                     elif names != ([], [], []):
